@@ -180,8 +180,36 @@ impl Family for C04Family {
         let mut op = plain_op(kind);
         op.user = vec![cell.outcome];
         op.yields = gen_yields(&mut r, 10, 2);
+        // now and then the store changes while the prompt is open: another authenticator on the same
+        // shared store registers a newer credential for the RP (what a sync would do)
+        let contended = !cell.make && r.chance(1, 6);
+        if contended {
+            op.yields = vec![r.range(3, 9) as u8; 8];
+        }
         actor.ops.push(op);
         c.actors.push(actor);
+        if contended {
+            c.wrap = *r.pick(&[Wrap::ArcMutex, Wrap::ArcRwLock]);
+            if r.chance(3, 4) {
+                c.store.newest_first = true;
+            }
+            let mut other = gen_actor(&mut r);
+            other.hmac = HmacCfg::None;
+            other.verification = Some(true);
+            other.presence_enabled = true;
+            let mut s = gen_mc(&mut r, RP);
+            s.algs = vec![-7];
+            s.exclude = None;
+            s.rk = true;
+            s.up = true;
+            s.uv = false;
+            s.pin_auth = false;
+            let mut reg = plain_op(OpKind::MakeCredential(s));
+            reg.yields = gen_yields(&mut r, 8, 2);
+            other.ops.push(reg);
+            c.actors.push(other);
+            c.schedule = gen_schedule(&mut r, 96);
+        }
         Scenario { family: "C04".into(), batch: if cell.client_level { "client" } else { "ctap" }.into(), seed: master, index, body: Body::Ceremony(c) }
     }
 
@@ -190,7 +218,7 @@ impl Family for C04Family {
         let rec = run_and_measure(c, stats);
         let mut j = Judge::new("C04", scn, &rec);
         stats.cells_total = CELLS;
-        for p in ["two_matching_credentials", "consent_missing_twin_compared", "success_with_unrequested_verification", "success_without_any_requirement", "denied_by_user", "validation_error", "uv_requested_without_capability"] {
+        for p in ["two_matching_credentials", "consent_missing_twin_compared", "success_with_unrequested_verification", "success_without_any_requirement", "denied_by_user", "validation_error", "uv_requested_without_capability", "store_changed_during_prompt"] {
             stats.declare_probe(p);
         }
         if rec.panic.is_some() || rec.outcome != Outcome2::Done {
@@ -231,6 +259,13 @@ impl Family for C04Family {
         }
         let app = applied(&rec, o);
         let ok = o.result.is_ok();
+        // another authenticator's record was accepted between this ceremony's prompt and its answer
+        let call_seq = rec.events_of(0, 0).find_map(|e| matches!(e.ev, Ev::UserCall { .. }).then_some(e.seq));
+        if let Some(cs) = call_seq {
+            if rec.events.iter().any(|e| e.task != 0 && e.seq > cs && e.seq < user_seq && matches!(e.ev, Ev::Applied { .. })) {
+                stats.probe("store_changed_during_prompt");
+            }
+        }
         let consent = (!req_up && !req_uv && !matches!(reported, Some(Err(_)))) || matches!(reported, Some(Ok((p, v))) if (!req_up || p) && (!req_uv || v));
         // (a) nothing is created or signed before the required consent was reported
         if ok && !consent {
@@ -289,7 +324,18 @@ impl Family for C04Family {
             if ok {
                 j.fail("error-case-succeeded", format!("{why}, yet the result is {}", short_result(&o.result)));
             }
-            if !app.is_empty() || o.before != o.after {
+            // (records another authenticator wrote meanwhile are not this ceremony's doing)
+            let foreign: Vec<Vec<u8>> = rec
+                .events
+                .iter()
+                .filter(|e| e.task != 0)
+                .filter_map(|e| match &e.ev {
+                    Ev::Applied { cred, .. } => Some(cred.id.clone()),
+                    _ => None,
+                })
+                .collect();
+            let mine = |l: &[crate::model::CredSnap]| l.iter().filter(|s| !foreign.contains(&s.id)).cloned().collect::<Vec<_>>();
+            if !app.is_empty() || mine(&o.before) != mine(&o.after) {
                 j.fail("error-case-store-touched", format!("{why}, yet the store changed: before {:?} after {:?}", o.before, o.after));
             }
         }
